@@ -53,13 +53,22 @@ def _eligible(chk, ctx) -> None:
         chk.ob('C02.eligible', 'State.pots:level', ok_lvl, ctx.loc(fi, a),
                'a player is eligible for a pot only if he paid at least up to its level (>=, not >)',
                got=[T.show(c) for c in lvl], want=f'pending_contributions[{iv}] >= contribution')
+    # the eligibility level is adjusted exactly like the contribution (dead antes are nobody's level)
+    adj = {'contributions': [], 'pending_contributions': []}
+    for n in walk_no_nested(fi.node):
+        if isinstance(n, ast.AugAssign) and isinstance(n.target, ast.Subscript) and isinstance(n.target.value, ast.Name) and n.target.value.id in adj:
+            adj[n.target.value.id].append((type(n.op).__name__, T.key(T.norm(n.target.slice)), T.key(T.norm(n.value)),
+                                           tuple(sorted(T.key(T.cond(t)) for t in _enclosing_tests(fi.node, n)))))
+    chk.ob('C02.eligible', 'State.pots:level_adjusted', sorted(adj['contributions']) == sorted(adj['pending_contributions']), fi.loc,
+           "a player's eligibility level is reduced by whatever is taken out of his contribution (an untrimmed ante is dead money, it buys no side-pot level)",
+           got={k: [(o, v) for o, _, v, _ in x] for k, x in adj.items()})
     # level list is sorted ascending and de-duplicated
     loops = [n for n in walk_no_nested(fi.node) if isinstance(n, ast.For) and isinstance(n.target, ast.Name) and n.target.id == 'contribution']
     ok = len(loops) == 1 and T.norm(loops[0].iter) == T.spec('sorted(set(contributions))')
     chk.ob('C02.eligible', 'State.pots:levels', ok, ctx.loc(fi, loops[0]) if loops else fi.loc,
            'pots are layered over the distinct contribution levels in ascending order',
            got=stmt_text(loops[0].iter) if loops else None, want='sorted(set(contributions))')
-    chk.floor('C02.eligible', 3)
+    chk.floor('C02.eligible', 4)
 
 
 def _conj(t):
